@@ -138,7 +138,7 @@ def letter_name(lt):
 # ------------------------------------------------------------------ roots
 
 REGIMES = {"disl": 4, "yield": 6, "minvisc": 0, "diff": 1, "maxvisc": 7}
-TEXTURES = ["random", "cluster", "girdle", "single", "aligned"]
+TEXTURES = ["random", "cluster", "girdle", "single", "aligned", "aligned_i64"]
 VOLS = ["uniform", "geometric"]
 NGRAINS = [5, 2, 3, 8, 1]
 PRM = {  # name -> overrides (default first)
@@ -226,7 +226,8 @@ def build_mineral(key, A=None, f=None, regime=None):
         regime=REGIMES[key["reg"]] if regime is None else regime,
         n_grains=n,
         fractions_init=np.array(f, float).copy(),
-        orientations_init=np.array(A, float).copy(),
+        # integer-typed textures are handed over as they are (legal ndarrays)
+        orientations_init=np.array(A).copy() if np.asarray(A).dtype.kind == "i" else np.array(A, float).copy(),
     )
 
 
